@@ -5,7 +5,7 @@ CHECK = {
     "level": "exploration",
     "rule": ("generated traffic (internal/verif/vtraffic): 1-8 TCP/UDP conversations over IPv4/IPv6 with random initial sequence "
              "numbers (incl. wrapping), flights cut into 1..9000 byte segments, reordering inside a flight (displacement <=3; about one scenario in five has one flight of 270-640 one-byte segments with an early segment captured more than 256 places late), exact "
-             "and re-segmented retransmissions after the original, pure ACKs, FIN/RST/half-close endings, interleaved by a generated "
+             "and re-segmented retransmissions after the original, about 4 % of the IPv4 packets with at least 16 bytes behind the IP header captured as two or three IPv4 fragments (in order or last first, consecutive records with one time stamp), pure ACKs, FIN/RST/half-close endings, interleaved by a generated "
              "merge, increasing microsecond time stamps (<4 min idle per flow; a quarter of the scenarios come from a coarse clock where packets of different conversations share a time stamp, never two packets of one conversation), UDP flows that share a flow-table bucket with another one (same hosts, port pairs with equal XOR), capture files whose first or last two packets are not in time stamp order (12 % of the files), cut into 1-5 capture files (pcap/pcapng; "
              "Ethernet, raw IP, IPv4, IPv6 link types) at generated points incl. mid-handshake and mid-flight. The files are imported "
              "through builder.New/FromPcap exactly like manager.importPcapJob does, in chronological batches of a generated partition, "
